@@ -1,7 +1,7 @@
 #!/venv/bin/python
 """Confirm and evaluate one independently written breaking change.
 
-usage: tools/seedcheck.py <PID> <k> [--suite] [--tier quick|thorough] [--also Cxx,Cyy]
+usage: tools/seedcheck.py <PID> <k> [--suite] [--tier quick|thorough] [--also Cxx,Cyy] [--src DIR --srck K]
   reads /tmp/seed_<PID>/_out/patch<k>.diff, demo<k>.py, notes<k>.md
   1. scratch worktree of /repo HEAD: demo must exit 0
   2. apply the patch: demo must exit != 0
@@ -24,7 +24,8 @@ def main():
     suite_only = "--suite-only" in sys.argv
     tier = sys.argv[sys.argv.index("--tier") + 1] if "--tier" in sys.argv else "quick"
     also = sys.argv[sys.argv.index("--also") + 1].split(",") if "--also" in sys.argv else []
-    src = f"/tmp/seed_{pid}/_out"
+    src = sys.argv[sys.argv.index("--src") + 1] if "--src" in sys.argv else f"/tmp/seed_{pid}/_out"
+    sk = sys.argv[sys.argv.index("--srck") + 1] if "--srck" in sys.argv else k  # file suffix used by the author
     wt = f"/tmp/sv_{pid}_{k}"
     sh(f"git -C /repo worktree remove --force {wt}")
     r = sh(f"git -C /repo worktree add --detach {wt} HEAD")
@@ -32,10 +33,10 @@ def main():
     meta = dict(id=f"{pid}-{k}", property=pid, source="independent sub-agent given only the property text and a scratch worktree")
     try:
         env = dict(os.environ, PYTHONPATH=wt, MPLBACKEND="Agg", TQDM_DISABLE="1")
-        demo = os.path.join(src, f"demo{k}.py")
+        demo = os.path.join(src, f"demo{sk}.py")
         r0 = subprocess.run(["/venv/bin/python", demo], cwd=wt, env=env, capture_output=True, text=True, timeout=1800)
         meta["demo_without_change_exit"] = r0.returncode
-        ra = sh(f"git -C {wt} apply {src}/patch{k}.diff")
+        ra = sh(f"git -C {wt} apply {src}/patch{sk}.diff")
         meta["patch_applies"] = ra.returncode == 0
         if ra.returncode != 0:
             meta["apply_error"] = ra.stderr[-400:]
@@ -66,10 +67,10 @@ def main():
             meta["suite"] = dict(baseline=len(base), passing=len(passed), baseline_tests_broken=missing[:10], ok=not missing)
         dst = os.path.join(VERIF, "seeded", f"{pid}-{k}")
         os.makedirs(dst, exist_ok=True)
-        shutil.copy(f"{src}/patch{k}.diff", f"{dst}/patch.diff")
+        shutil.copy(f"{src}/patch{sk}.diff", f"{dst}/patch.diff")
         shutil.copy(demo, f"{dst}/demo.py")
-        if os.path.exists(f"{src}/notes{k}.md"):
-            shutil.copy(f"{src}/notes{k}.md", f"{dst}/notes.md")
+        if os.path.exists(f"{src}/notes{sk}.md"):
+            shutil.copy(f"{src}/notes{sk}.md", f"{dst}/notes.md")
         prev = {}
         if os.path.exists(f"{dst}/meta.json"):
             prev = json.load(open(f"{dst}/meta.json"))
